@@ -92,17 +92,22 @@ def shard(items, n):
 
 
 def launch(jobs, workers, timeout, tmp):
-    """jobs: list of (tag, hashseed, manifest path, out path).  Runs at most `workers` at a time."""
+    """jobs: list of (tag, hashseed, manifest path, out path[, extra env]).  Runs at most `workers` at a time."""
     pending = list(jobs)
     running = []
     t0 = time.time()
     failures = []
     while pending or running:
         while pending and len(running) < workers:
-            tag, hs, mpath, opath = pending.pop(0)
+            job = pending.pop(0)
+            tag, hs, mpath, opath = job[:4]
             env = dict(os.environ)
             env["PYTHONHASHSEED"] = hs
             env.pop("VERIF_KEEP_HASHSEED", None)
+            env.pop("VERIF_C14_ORDER", None)
+            env.pop("VERIF_C14_STOP_AFTER", None)
+            if len(job) > 4:
+                env.update(job[4])
             errf = open(opath + ".err", "wb")
             p = subprocess.Popen([sys.executable, CHILD, mpath, opath], env=env,
                                  stdout=subprocess.DEVNULL, stderr=errf)
@@ -139,8 +144,14 @@ def parse(opath):
     return rows, complete
 
 
-def explore(items, seeds, shards, workers, timeout, tmp):
-    """Returns (cells, failures): cells[(item, kind)] = {(hashseed, rep): digest}, nontrivial flags."""
+def order_seed_of(seed, hs, b):
+    return rng.derive(NAME, "order", seed, hs, b) % (1 << 30)
+
+
+def explore(items, seeds, shards, workers, timeout, tmp, shuffle_seed=None, context=None):
+    """Returns (cells, nontrivial, rows, failures): cells[(item, kind)] = {(hashseed, rep): digest}.
+    With shuffle_seed every interpreter visits its items in its own seeded order.  `context` (optional
+    dict) is filled with what each interpreter ran: context[(hashseed, shard)] = {order_seed, items}."""
     os.makedirs(tmp, exist_ok=True)
     bins = shard(items, shards)
     jobs = []
@@ -151,13 +162,19 @@ def explore(items, seeds, shards, workers, timeout, tmp):
         with open(mpath, "w") as f:
             json.dump({"tmp": tmp, "items": its}, f)
         for hs in seeds:
-            jobs.append(("hashseed=%s shard=%d" % (hs, b), hs, mpath, os.path.join(tmp, "out-%s-%d.txt" % (hs, b))))
+            extra = {}
+            if shuffle_seed is not None:
+                extra["VERIF_C14_ORDER"] = str(order_seed_of(shuffle_seed, hs, b))
+            if context is not None:
+                context[(hs, b)] = {"hashseed": hs, "shard": b, "order_seed": extra.get("VERIF_C14_ORDER"),
+                                    "items": [it["id"] for it in its]}
+            jobs.append(("hashseed=%s shard=%d" % (hs, b), hs, mpath, os.path.join(tmp, "out-%s-%d.txt" % (hs, b)), extra))
     # heavy shards first
     failures = launch(jobs, workers, timeout, tmp)
     cells = {}
     nontrivial = {}
     rows_total = 0
-    for tag, hs, mpath, opath in jobs:
+    for tag, hs, mpath, opath, _extra in jobs:
         if not os.path.exists(opath):
             failures.append("%s: no output" % tag)
             continue
@@ -203,6 +220,33 @@ def rerun(item, seeds, tmp, tag):
     return cells, failures
 
 
+def run_context(jobs, item_id, kind, tmp, tag):
+    """Re-run complete interpreter contexts.  jobs: [{hashseed, order_seed, items:[item dicts], rep}] ->
+    list of digests of (item_id, kind) as observed by each job in its repetition `rep`."""
+    d = os.path.join(tmp, tag)
+    os.makedirs(d, exist_ok=True)
+    launch_jobs = []
+    for k, job in enumerate(jobs):
+        mpath = os.path.join(d, "manifest-%d.json" % k)
+        with open(mpath, "w") as f:
+            json.dump({"tmp": d, "items": job["items"]}, f)
+        extra = {"VERIF_C14_STOP_AFTER": "%s:%d" % (item_id, job["rep"])}
+        if job.get("order_seed") is not None:
+            extra["VERIF_C14_ORDER"] = str(job["order_seed"])
+        launch_jobs.append(("context-%d" % k, job["hashseed"], mpath, os.path.join(d, "out-%d.txt" % k), extra))
+    failures = launch(launch_jobs, min(16, len(launch_jobs)), 1800, d)
+    digests = []
+    for (tagk, hs, mpath, opath, extra), job in zip(launch_jobs, jobs):
+        got = None
+        if os.path.exists(opath):
+            rows, _ = parse(opath)
+            for it, kd, rep, h, size, nt in rows:
+                if it == item_id and kd == kind and rep == job["rep"]:
+                    got = h
+        digests.append(got)
+    return digests, failures
+
+
 def minimise(item, kind, seeds_pair, tmp):
     """Shrink a generated structure while the two interpreters still disagree on `kind`."""
     if item["type"] != "bpseq":
@@ -235,7 +279,9 @@ def check(tier, seed, workers):
     seeds = hashseeds(tier, seed)
     items = corpus_items(tier) + generated_items(tier, seed)
     timeout = float(os.environ.get("VERIF_BUDGET_S") or 0) * 4 or plan["timeout"]
-    cells, nontrivial, rows_total, failures = explore(items, seeds, plan["shards"], workers, timeout, tmp)
+    context = {}
+    cells, nontrivial, rows_total, failures = explore(items, seeds, plan["shards"], workers, timeout, tmp,
+                                                     shuffle_seed=seed, context=context)
     if failures:
         print("HARNESS-ERROR: C14 child interpreters failed: %s" % "; ".join(failures[:4]))
         return 2
@@ -271,13 +317,35 @@ def check(tier, seed, workers):
                "digests": {"%s/%d" % k: h for k, h in sorted(m3.items())},
                "minimisation_executions": tried,
                "observed_in_batch": v["digests"]}
+        if len(set(m3.values())) <= 1:
+            # alone, the item is stable: the difference needs what ran before it in the same interpreter.
+            # Replay the two complete interpreter contexts (same hash seed, same visiting order, stopped
+            # right after the item) instead.
+            m = cells[(v["item"], v["kind"])]
+            (hs_a, rep_a), (hs_b, rep_b) = pick_pair(m)
+            by_id = {it["id"]: it for it in items}
+            jobs = []
+            for hs, rep in ((hs_a, rep_a), (hs_b, rep_b)):
+                ctx = [c for (h, b), c in context.items() if h == hs and v["item"] in c["items"]][0]
+                jobs.append({"hashseed": hs, "order_seed": ctx["order_seed"], "rep": rep,
+                             "items": [by_id[i] for i in ctx["items"]]})
+            digests, fails = run_context(jobs, v["item"], v["kind"], tmp, "context")
+            doc = {"property": NAME, "engine": NAME, "seed": seed, "tier": tier, "mode": "context",
+                   "item_id": v["item"], "kind": v["kind"], "jobs": jobs, "clause": "identical-whatever-ran-before-in-the-process",
+                   "signature": ["identical-whatever-ran-before-in-the-process", v["kind"].split("@")[0]],
+                   "digests": digests, "observed_in_batch": v["digests"]}
+            v = dict(v, clause=doc["clause"], signature=doc["signature"])
+            hit = [text for ksig, text in known if ksig == v["signature"]]
+            if hit:
+                print("KNOWN-FINDING: property=%s %s" % (NAME, hit[0]))
+                continue
         path = runner.write_replay(NAME, seed, v["item"].replace("/", "_") + "-" + v["kind"].replace("@", "_"), doc)
         ok, outp = runner.confirm_replay(path, timeout=900)
         if not ok:
             print("HARNESS-ERROR: property=C14 a violation did not replay in fresh interpreters (%s)\n%s" % (path, outp[-1500:]))
             return 2
         print("VIOLATION property=%s replay=%s" % (NAME, path))
-        print("  clause=%s item=%s kind=%s hashseeds=%s" % (v["clause"], v["item"], v["kind"], pair_seeds))
+        print("  clause=%s item=%s kind=%s hashseeds=%s" % (doc["clause"], v["item"], v["kind"], doc.get("hashseeds") or [j["hashseed"] for j in doc["jobs"]]))
         new += 1
         if new >= 5:
             break
@@ -305,6 +373,9 @@ def check(tier, seed, workers):
         "interpreters": len(seeds) * plan["shards"],
         "hash_seeds": seeds,
         "repetitions_in_process": 2,
+        "visiting_order": "every interpreter visits its items in its own seeded order, and in another order the second "
+                          "time, so that dependence on what ran before in the process shows up as a digest difference; "
+                          "such a difference is replayed by re-running the two complete interpreter contexts",
         "items": {"corpus_file_x_gap_setting": sum(1 for x in items if x["type"] == "file"),
                   "generated_structures": sum(1 for x in items if x["type"] == "bpseq")},
         "cells": len(cells),
@@ -324,6 +395,23 @@ def check(tier, seed, workers):
 
 def replay(doc, path):
     tmp = os.path.join(runner.base_tmp(), "c14-replay")
+    if doc.get("mode") == "context":
+        digests, failures = run_context(doc["jobs"], doc["item_id"], doc["kind"], tmp, "replay")
+        if failures or None in digests:
+            print("HARNESS-ERROR: replay children failed: %s %s" % (failures[:2], digests))
+            return 2
+        if len(set(digests)) <= 1:
+            print("REPLAY-NOT-REPRODUCED property=C14 file=%s" % path)
+            return 0
+        if doc.get("digests") and digests != doc["digests"]:
+            print("REPLAY-DIGEST-MISMATCH property=C14 file=%s %s vs %s" % (path, digests, doc["digests"]))
+            return 2
+        print("REPLAY-REPRODUCED property=C14 clause=%s item=%s kind=%s" % (doc["clause"], doc["item_id"], doc["kind"]))
+        for job, h in zip(doc["jobs"], digests):
+            print("  hashseed %s order %s rep %d (%d items in the interpreter) -> %s" % (
+                job["hashseed"], job["order_seed"], job["rep"], len(job["items"]), h[:16]))
+        print("VIOLATION property=C14 replay=%s" % path)
+        return 1
     item = doc["item"]
     cells, failures = rerun(item, doc["hashseeds"], tmp, "replay")
     if failures:
